@@ -293,7 +293,10 @@ class ProtocolContext:
         self._state.connection_lost()
 
     def pkt_received(self, pkt: Packet) -> Any:
-        self._state.pkt_rcvd(pkt)
+        try:
+            self._state.pkt_rcvd(pkt)
+        except (exc.PacketInvalid, NotImplementedError):  # from pkt._hdr: is not ours
+            return
 
     def pause_writing(self) -> None:
         self._state.writing_paused()
